@@ -42,6 +42,31 @@ def opsPhys : List String → Option (String × String)
     let st ← nat? st; let d ← data? d
     let s := { s with start := st, bigEndian := ord == "BE" }
     some (f64Out (unmarshalPhysical s d), "-")
+  | ["sgp", ord, st, len, sg, d] => do
+    -- C08: UnmarshalPhysical of a signal with identity conversion returns the C01 value of the layout (as a double)
+    let st ← nat? st; let len ← nat? len; let d ← data? d
+    let s : DSignal :=
+      { name := [], start := st, length := len, bigEndian := ord == "BE", signed := sg == "1", mux := false,
+        muxed := false, muxValue := 0, offset := 0, scale := 0x3ff0000000000000, min := 0, max := 0, unit := [], receivers := [] }
+    let u := if s.bigEndian then specReadBE d st len else specReadLE d st len
+    let sp : F64 := if len == 1 then (if decide (st ≤ 63) && payloadBit d st then 0x3ff0000000000000 else 0)
+      else if s.signed then f64OfInt (specSigned u len) else f64OfNat u
+    some (f64Out (unmarshalPhysical s d), f64Out sp)
+  | ["sgv", ord, st, len, sg, d, vs] => do
+    -- C08: UnmarshalValueDescription looks up the C01 value (unsigned values reinterpreted as int64)
+    let st ← nat? st; let len ← nat? len; let d ← data? d
+    let vals ← (vs.splitOn ",").mapM int?
+    let vds : List DVal := (List.range vals.length).zip vals |>.map fun (i, v) => { value := v, desc := (toString i).toUTF8.toList }
+    let s : DSignal :=
+      { name := [], start := st, length := len, bigEndian := ord == "BE", signed := sg == "1", mux := false,
+        muxed := false, muxValue := 0, offset := 0, scale := 0x3ff0000000000000, min := 0, max := 0, unit := [], receivers := [],
+        vds := vds }
+    let u := if s.bigEndian then specReadBE d st len else specReadLE d st len
+    let v : Int := if s.signed then specSigned u len else (if u ≥ 2 ^ 63 then (u : Int) - 2 ^ 64 else u)
+    let show_ (o : Option BStr) : String := match o with
+      | some b => "d" ++ String.ofList (b.map fun c => Char.ofNat c.toNat)
+      | none => "none"
+    some (show_ (unmarshalValueDescription s d), show_ ((vds.find? fun x => x.value == v).map (·.desc)))
   | ["physmono", len, sg, sc, off, mn, mx, p, q] => do
     let s ← physSig len sg sc off mn mx
     let p ← hex16? p; let q ← hex16? q
